@@ -56,7 +56,7 @@ def verify(pid, mn, src="/tmp/seedout", store_as=None):
         notes = os.path.join(d, "notes.md")
         needs = open(notes).read() if os.path.exists(notes) else ""
         meta = {"property": pid, "origin": "independent sub-agent given only the property text and a scratch worktree"
-                          + (" (round 2, against the tree with the fix: commits)" if "seedout2" in src else " (round 3, against the tree with the fix: commits; asked for non-cache, shape-, side- or flavour-specific changes)" if "seedout3" in src else ""),
+                          + (" (round 2, against the tree with the fix: commits)" if "seedout2" in src else " (round 3, against the tree with the fix: commits; asked for non-cache, shape-, side- or flavour-specific changes)" if "seedout3" in src else " (round 4, against the tree with the fix: commits; asked for helper modules, feature combinations, error paths, off-by-one with three or more)" if "seedout4" in src else ""),
                 "needs_to_manifest": needs[:3000],
                 "confirmed": {"suite_with_patch": s + " (the always-failing test_origin[type_alias_type] deselected)",
                               "demo_exit_unchanged": base_demo.returncode, "demo_exit_patched": mut_demo.returncode,
